@@ -552,6 +552,13 @@ func replay(e *executor, job *Job) {
 	specs = append(specs, last)
 	outs := e.batch(specs, true)
 	out := outs[len(outs)-1]
+	if rp.Violation != nil {
+		for k := 1; k < reportTries(rp.Violation.Class) && len(outs) == len(specs) && (out.Res.Violation == nil || out.Res.Violation.Class != rp.Violation.Class); k++ {
+			fmt.Printf("replay: execution %d of the recorded schedule did not produce a %s report; executing it again\n", k, rp.Violation.Class)
+			outs = e.batch(specs, true)
+			out = outs[len(outs)-1]
+		}
+	}
 	res := &WorkerResult{}
 	if len(outs) < len(specs) {
 		fmt.Printf("replay: the process died in prefix run %d\n", len(outs)-1)
@@ -577,6 +584,21 @@ func replay(e *executor, job *Job) {
 	writeJSON(filepath.Join(job.OutDir, "result.0.json"), res)
 }
 
+// reportTries is how often a schedule is executed before a violation of the
+// given class is taken not to occur under it. The schedule, and with it every
+// memory access, is the same in each execution; whether the Go race detector
+// *reports* a pair of unordered accesses is not: it remembers a bounded number
+// of earlier accesses per memory word and evicts them pseudo-randomly (and
+// addresses differ between processes). A report is never spurious, so an alarm
+// needs one reporting execution; without this a genuine race was sometimes
+// found and then dismissed as "did not reproduce".
+func reportTries(class string) int {
+	if class == "data-race" {
+		return 6
+	}
+	return 1
+}
+
 // minimise confirms that the violation is a pure function of (prefix, case,
 // decisions) and then shrinks all three while the same violation class persists.
 func minimise(e *executor, job *Job, idx int, runSeed uint64, prefix []runSpec, c CaseI, out *Outcome) (*Replay, string) {
@@ -593,9 +615,11 @@ func minimise(e *executor, job *Job, idx int, runSeed uint64, prefix []runSpec, 
 		return outs[len(pre)]
 	}
 	fails := func(pre []runSpec, cc CaseI, ch []uint32) *Outcome {
-		o := run(pre, cc, ch, false)
-		if o.Res.Violation != nil && o.Res.Violation.Class == class {
-			return o
+		for k := 0; k < reportTries(class); k++ {
+			o := run(pre, cc, ch, false)
+			if o.Res.Violation != nil && o.Res.Violation.Class == class {
+				return o
+			}
 		}
 		return nil
 	}
@@ -692,6 +716,9 @@ func minimise(e *executor, job *Job, idx int, runSeed uint64, prefix []runSpec, 
 	}
 	// final run with the log kept
 	final := run(prefix, best, choices, true)
+	for k := 1; k < reportTries(class) && (final.Res.Violation == nil || final.Res.Violation.Class != class); k++ {
+		final = run(prefix, best, choices, true)
+	}
 	if final.Res.Violation == nil || final.Res.Violation.Class != class {
 		return nil, fmt.Sprintf("run %d (seed %d): minimised tuple does not reproduce violation %q", idx, runSeed, class)
 	}
